@@ -29,7 +29,7 @@ pub fn spec() -> Spec {
 
 const USER: &str = "indexer";
 const PASS: &str = "s3cret-Pass";
-const PK: &str = "5120c3c3c3c3c3c3c3c3c3c3c3c3c3c3c3c3c3c3c3c3c3c3c3c3c3c3c3c3c3c3c3c3";
+pub const PK: &str = "5120c3c3c3c3c3c3c3c3c3c3c3c3c3c3c3c3c3c3c3c3c3c3c3c3c3c3c3c3c3c3c3c3";
 
 struct Server {
     handle: ServerHandle,
@@ -87,7 +87,7 @@ fn header_variants() -> Vec<(&'static str, Vec<String>, bool)> {
 }
 
 /// Well-formed parameters for every method (named form).
-fn template(method: &str, st: &Tmpl) -> Option<Value> {
+pub fn template(method: &str, st: &Tmpl) -> Option<Value> {
     let zero = hist::ZERO_HASH;
     Some(match method {
         "brc20_version" | "eth_blockNumber" | "eth_chainId" | "eth_maxPriorityFeePerGas" | "eth_blobBaseFee" | "net_version" | "web3_clientVersion" | "eth_accounts" | "eth_gasPrice" | "eth_syncing" | "txpool_content" | "brc20_commitToDatabase" | "brc20_clearCaches" => json!([]),
@@ -131,14 +131,14 @@ fn template(method: &str, st: &Tmpl) -> Option<Value> {
 }
 
 #[derive(Clone)]
-struct Tmpl {
-    tool: String,
-    tx_hash: String,
-    block_hash: String,
-    fresh_hash: String,
-    raw_tx: String,
-    next_height: u64,
-    n: u64,
+pub struct Tmpl {
+    pub tool: String,
+    pub tx_hash: String,
+    pub block_hash: String,
+    pub fresh_hash: String,
+    pub raw_tx: String,
+    pub next_height: u64,
+    pub n: u64,
 }
 
 /// Authorised setup: genesis, a tool, some tokens, committed.
